@@ -3,7 +3,7 @@
 S=/verif/seeded/$1; shift
 cd /repo && git status --short | grep -q . && { echo "repo dirty"; exit 2; }
 git apply $S/patch.diff || { echo "patch failed"; exit 2; }
-trap 'cd /repo && git checkout -- . ' EXIT
+trap 'cd /repo && git checkout -- . && /verif/rs2lean/target/debug/rs2lean /repo /verif/lean/snapshot.json /verif/lean/MRB/Gen' EXIT
 cd /verif
 for p in "$@"; do
   out=$(./check $p 2>&1); rc=$?
